@@ -539,6 +539,13 @@ def explore(ctx, nmax, nstress, stress_calls, rng, oracle_only=False):
     ses.flush()
 
 
+def translators(ctx):
+    """Generated/InitOnceSteps.lean: statement skeletons of FFI.init_once (ast) and ffi_init_once, re-extracted from the working tree."""
+    sys.path.insert(0, os.path.join(common.VERIF, "translate"))
+    import c26_steps
+    return [c26_steps.run]
+
+
 def correspond(ctx):
     explore(ctx, ctx.n(4, 5), ctx.n(60, 700), ctx.n(4, 5), ctx.rng)
 
